@@ -1151,6 +1151,10 @@ func (envs *Manager) handleDeviceEvent(evt event.DeviceEvent) {
 			if env.CurrentState() == "RUNNING" {
 				go func() {
 					t.GetParent().UpdateState(sm.ERROR)
+					if !t.GetTraits().Critical {
+						// the state of a non-critical task does not affect the environment
+						return
+					}
 					err = env.TryTransition(NewStopActivityTransition(envs.taskman))
 					if err != nil {
 						log.WithPrefix("scheduler").
